@@ -31,7 +31,7 @@ META = {
     "id": "C13",
     "level": "proof",
     "technique": "Coq theorems over byte/line-level executable models of xyz_reader, lammpstrj_reader, ReadAndProcessOnTheFly and the TRR polling loop (every byte cut, every non-decreasing poll sequence, unbounded) + an observation-level state machine of the TRR loop (one transition per check_poll/getsize, GROMACS may write and exit between any two) with the no-complete-frame-lost theorem for every interleaving + exhaustive every-cut lock-step of the extracted model vs the real readers and the real GROMACS TRR loop, and exhaustive exploration of the writer/reader interleavings of the real loop on small TRR files",
-    "text": "Unbounded theorems, closed under the global context: for every list of well-formed frames (any atom count, any whitespace-free number tokens, LAMMPS ids in any order, 2- or 3-column box lines) and EVERY byte cut of the file, the xyz and LAMMPS readers raise nothing, return exactly the frames wholly inside the cut with exactly the written tokens and advance the position by exactly their bytes (C13_xyz_no_torn, C13_lammps_no_torn); for every non-decreasing sequence of cuts polled with one reader object each poll returns exactly the frames completed since the previous poll, so the concatenation is every complete frame once, in order, and all frames once the writer is done (…_incremental, …_complete_after_writer); the LAMMPS value is characterised independently of the reader (row of atom id at index id-1, box rows = tokens of lines 5..7); for the GROMACS TRR loop, on sizes: every header/data read starts at a block boundary, has the block's length and ends inside the bytes on disk when issued, frames are handed out 0,1,2,… once each, and after GROMACS exits all frames have been handed out and all bytes consumed (C13_trr_never_reads_past_size, C13_trr_quiescent_complete, instantiated with TRR_HEAD_SIZE and the header sizes extracted from gromacs.py). Writer against EVERY observation point of the TRR loop: get_gromacs_frames learns about the world only through check_poll() and os.path.getsize(); the model trr_step has one transition per such observation (program points: outer poll, header getsize, data getsize, the poll and the SECOND getsize of the 'GROMACS has ended' guard inside the wait-for-data loop, the two getsize of the final read) and a schedule gives the bytes on disk at every observation made while GROMACS runs, the index of the observation that first sees it ended with code 0 (any index, hence any program point — in particular between the getsize that says 'data not ready' and the check_poll that follows) and the final size. For every schedule whose observations never exceed the final size the generator returns and hands out exactly the frames completely inside the final size, each once, in order, every read lying inside the bytes on disk when issued (C13_trr_every_interleaving; C13_trr_complete_frames_exist: such a frame count exists for every final size); with the constants of gromacs.py and GROMACS having written everything, no complete frame is lost for any interleaving (C13_trr_no_complete_frame_lost). The loop that decides 'ended and incomplete' with the size read BEFORE check_poll() — no second getsize — is refuted: it returns with two complete frames lost (C13_trr_stale_size_refuted). FRAMES OF DIFFERENT SIZES: the frames of one TRR file need not carry the same blocks (velocities / forces written every nstvout / nstfout steps, positions every nstxout steps); in the model a layout is a list of (header size, data size), the pending frame carries the data size announced by ITS OWN header (as the code does: self.data_size is recomputed for every header) and all TRR theorems quantify the data size per frame (lay_ok fixes the header size only) - C13_trr_guard_uses_own_frame_size: the loop with its two data-size guards parametrised by the size they use (trr_sched_g) is, with the frame's own size, the loop of C13_trr_every_interleaving; the size computed once while data_size == 0 (cached_size) is refuted twice: a small frame first lets get_data run on a frame that is only partly on disk (C13_trr_cached_data_size_torn_refuted), a large frame first makes the loop return without the last, complete frame (C13_trr_cached_data_size_lost_refuted). The behaviour before the repair of lead L1 is refuted by vm_compute witnesses (C13_*_old_reader_*). The models are tied to /repo on every run by running the extracted model and the real code on the same files at every single byte cut (+ second poll on the whole file), all pairs of cuts of the smallest files and random longer poll sequences, comparing frames, file position and raised/not raised; for TRR additionally by driving the real get_gromacs_frames with a scripted process object and file against every interleaving over a set of byte positions (all thresholds the loop compares with, +-1/+-2, and mid-header / mid-data positions) of 2-, 3- and 4-frame files in both precisions — exhaustive over the position before each observation, the observation at which GROMACS is seen ended, and the final size, with states of identical (line, locals, attributes, offset, bytes on disk) merged — comparing the sequence of check_poll/getsize calls, every read and every yield with trr_step; the literal statement is evaluated on the implementation's results (frames handed out == frames completely on disk at the end, written values, nothing raised) and a failing schedule is reported as replay. Both TRR families (byte cuts and interleavings) also run on files whose frames have DIFFERENT data sizes: every pattern of positions only / + velocities / + forces over 2, 3 and 4 frames (quick tier: every third 4-frame pattern; the byte-cut family in both precisions with alternating byte order, the interleaving family with precision and byte order alternating from pattern to pattern; thorough: all four combinations) plus layouts with vir/pres/box in some frames only, atom counts chosen so that the first frame(s) reach TRR_HEAD_SIZE and the later frames are read while the file still grows; cuts / positions = every threshold the loop compares the size with, every block boundary, and the offsets at which a guard using ANOTHER frame's data size would fire, -1/0 (+-2 for byte cuts), the middle of every header and block, + seeded random cuts; an exception of the loop (struct.error, EOFError route into reopen_file, ...) is a finding with its input.",
+    "text": "Unbounded theorems, closed under the global context: for every list of well-formed frames (any atom count, any whitespace-free number tokens, LAMMPS ids in any order, 2- or 3-column box lines) and EVERY byte cut of the file, the xyz and LAMMPS readers raise nothing, return exactly the frames wholly inside the cut with exactly the written tokens and advance the position by exactly their bytes (C13_xyz_no_torn, C13_lammps_no_torn); for every non-decreasing sequence of cuts polled with one reader object each poll returns exactly the frames completed since the previous poll, so the concatenation is every complete frame once, in order, and all frames once the writer is done (…_incremental, …_complete_after_writer); the LAMMPS value is characterised independently of the reader (row of atom id at index id-1, box rows = tokens of lines 5..7); for the GROMACS TRR loop, on sizes: every header/data read starts at a block boundary, has the block's length and ends inside the bytes on disk when issued, frames are handed out 0,1,2,… once each, and after GROMACS exits all frames have been handed out and all bytes consumed (C13_trr_never_reads_past_size, C13_trr_quiescent_complete, instantiated with TRR_HEAD_SIZE and the header sizes extracted from gromacs.py). Writer against EVERY observation point of the TRR loop: get_gromacs_frames learns about the world only through check_poll() and os.path.getsize(); the model trr_step has one transition per such observation (program points: outer poll, header getsize, data getsize, the poll and the SECOND getsize of the 'GROMACS has ended' guard inside the wait-for-data loop, the two getsize of the final read) and a schedule gives the bytes on disk at every observation made while GROMACS runs, the index of the observation that first sees it ended with code 0 (any index, hence any program point — in particular between the getsize that says 'data not ready' and the check_poll that follows) and the final size. For every schedule whose observations never exceed the final size the generator returns and hands out exactly the frames completely inside the final size, each once, in order, every read lying inside the bytes on disk when issued (C13_trr_every_interleaving; C13_trr_complete_frames_exist: such a frame count exists for every final size); with the constants of gromacs.py and GROMACS having written everything, no complete frame is lost for any interleaving (C13_trr_no_complete_frame_lost). The loop that decides 'ended and incomplete' with the size read BEFORE check_poll() — no second getsize — is refuted: it returns with two complete frames lost (C13_trr_stale_size_refuted). FRAMES OF DIFFERENT SIZES: the frames of one TRR file need not carry the same blocks (velocities / forces written every nstvout / nstfout steps, positions every nstxout steps); in the model a layout is a list of (header size, data size), the pending frame carries the data size announced by ITS OWN header (as the code does: self.data_size is recomputed for every header) and all TRR theorems quantify the data size per frame (lay_ok fixes the header size only) - C13_trr_guard_uses_own_frame_size: the loop with its two data-size guards parametrised by the size they use (trr_sched_g) is, with the frame's own size, the loop of C13_trr_every_interleaving; the size computed once while data_size == 0 (cached_size) is refuted twice: a small frame first lets get_data run on a frame that is only partly on disk (C13_trr_cached_data_size_torn_refuted), a large frame first makes the loop return without the last, complete frame (C13_trr_cached_data_size_lost_refuted). The behaviour before the repair of lead L1 is refuted by vm_compute witnesses (C13_*_old_reader_*). The models are tied to /repo on every run by running the extracted model and the real code on the same files at every single byte cut (+ second poll on the whole file), all pairs of cuts of the smallest files and random longer poll sequences, comparing frames, file position and raised/not raised; for TRR additionally by driving the real get_gromacs_frames with a scripted process object and file against every interleaving over a set of byte positions (all thresholds the loop compares with, +-1/+-2, and mid-header / mid-data positions) of 2-, 3- and 4-frame files in both precisions — exhaustive over the position before each observation, the observation at which GROMACS is seen ended, and the final size, with states of identical (line, locals, attributes, offset, bytes on disk) merged — comparing the sequence of check_poll/getsize calls, every read and every yield with trr_step; the literal statement is evaluated on the implementation's results (frames handed out == frames completely on disk at the end, written values, nothing raised) and a failing schedule is reported as replay. Both TRR families (byte cuts and interleavings) also run on files whose frames have DIFFERENT data sizes: every pattern of positions only / + velocities / + forces over 2, 3 and 4 frames (quick tier: every third 4-frame pattern; the byte-cut family in both precisions with alternating byte order, the interleaving family with precision and byte order alternating from pattern to pattern; thorough: every pattern in both precisions, the byte-cut family in both byte orders too) plus layouts with vir/pres/box in some frames only, atom counts chosen so that the first frame(s) reach TRR_HEAD_SIZE and the later frames are read while the file still grows; cuts / positions = every threshold the loop compares the size with, every block boundary, and the offsets at which a guard using ANOTHER frame's data size would fire, -1/0 (+-2 for byte cuts), the middle of every header and block, + seeded random cuts; an exception of the loop (struct.error, EOFError route into reopen_file, ...) is a finding with its input.",
     "note": "Trusted: Coq kernel; extraction (ExtrOcamlBasic) + ocaml/c13_driver.ml; this harness (generators, canonicalisation as float64 bytes, the ground truth = float() of the tokens the generator wrote and their byte offsets). Modelled, not verified: readline()/tell()/seek() of Python text files on ASCII content without carriage returns (readline = split after every newline, tell = byte offset), str.split() on ASCII white space, int()/float() on plain decimal tokens (float()/numpy string conversion is an uninterpreted decidable token predicate in the theorems; the runner instantiates it with a decimal-literal automaton), os.path.getsize and BufferedReader.read on a growing file. The theorems assume one atom count per file (the LAMMPS reader reads N only in the first frame of a poll) and, for TRR, one header size per file not larger than TRR_HEAD_SIZE; the TRR data size is arbitrary PER FRAME (no uniform-size assumption: the generated non-uniform files keep the atom count and vary the blocks). TRR is covered at the level of sizes and offsets (which block is read when, with how many bytes on disk); the decoding of a complete block by struct.unpack is exercised by the harness (both byte orders, both precisions, all block subsets) but not modelled in Coq. The real gmx program is replaced by a scripted writer: a stand-in for the Popen object whose poll() turns non-None once the script is exhausted and a replacement of gromacs.sleep that appends the next chunk; start()/stop()/reopen_file (inode change) are not exercised. Observation: because the first header is only read once TRR_HEAD_SIZE (1000) bytes are on disk, frames of a file shorter than that are handed out only after GROMACS exits — late, never torn. In the interleaving family the file is an in-memory append-only object (read/tell/seek), poll() and getsize() are answered from the schedule and gromacs.sleep is a no-op, so the runs are deterministic (no clock, no thread); merging of equivalent states reads the generator frame's line number and local variables through sys._getframe (a state the harness cannot see — none exists today: the loop's state is its locals, the runner's attributes and the file offset — would make the exploration incomplete, not unsound). A non-zero return code makes check_poll raise (a failed run, by design) and is not scheduled. Observation (outside the property, which is about partial writes of an output that gets completed): if gmx exits with code 0 leaving a PARTIAL last frame, the wait-for-data guard stops cleanly, but when the exit is noticed by the outer check_poll, read_remaining_trr reads into the partial frame and raises struct.error (read_struct_buff only turns an empty read into the handled EOFError); such schedules are counted (trr_schedules_outside_property) and not judged.",
     "design_ref": "4/C13",
 }
@@ -520,7 +520,7 @@ def nonuniform_plans(quick, sched=False):
             for db in (False, True):
                 if quick and sched and db != bool(n % 2):
                     continue            # interleavings, quick tier: the precision alternates with the pattern
-                ens = ("<>"[(n // 2 + db) % 2],) if quick else ("<", ">")
+                ens = ("<>"[(n // 2 + db) % 2],) if (quick or sched) else ("<", ">")
                 for en in ens:
                     # x block of 600 / 360 / 240 bytes for 2 / 3 / 4 frames
                     na = {2: 50, 3: 30, 4: 20}[nf] // (2 if db else 1)
@@ -644,7 +644,7 @@ def run_trr(ctx, runner, G, path, rng, tier, stats):
             # frame's data size would let the read go ahead, TRR_HEAD_SIZE; one position inside every
             # header and block; + seeded random cuts
             marks = layout_marks(frames, head, 2)
-            cuts = sorted(set(marks) | set(rng.sample(range(total + 1), min(total + 1, 40 if quick else 400))))
+            cuts = sorted(set(marks) | set(rng.sample(range(total + 1), min(total + 1, 40 if quick else 150))))
         else:
             marks = None
             cuts = range(total + 1) if total <= max_every else sorted(set(rng.sample(range(total + 1), max_every)) | {0, total})
